@@ -8,7 +8,7 @@ import struct
 import numpy as np
 import z3
 from .. import s1, tdmsmodel as tm
-from ..sx import explore, SymInt, ex, Inconclusive, Violation
+from ..sx import explore, SymInt, ex, Inconclusive, Violation, PathAbort
 from ..sxreal import SymReal, rarr, rval, nra_check, RealArray
 from . import c04
 
@@ -62,6 +62,10 @@ def tasks(tier, seed):
                 continue
             for declared in ((True, False) if n <= 2 else (True,)):
                 ts.append(dict(kind='graph', types=list(types), declared=declared))
+    for types in (['AdvancedAPI', 'Add'], ['AdvancedAPI', 'Subtract'], ['AdvancedAPI', 'Linear', 'Add'], ['AdvancedAPI', 'Linear', 'Subtract'],
+                  ['Linear', 'AdvancedAPI', 'Add'], ['AdvancedAPI', 'Polynomial'], ['AdvancedAPI', 'AdvancedAPI', 'Subtract']):
+        ts.append(dict(kind='graph', types=types, declared=True))
+    ts.append(dict(kind='concrete-purity'))
     ts.append(dict(kind='lookup'))
     # purity of the sensor scale types (their formulas are C17's subject; that they leave the raw array alone is C13's)
     from . import c17
@@ -126,6 +130,11 @@ def _graph(task, ctx):
                 props['NI_Scale[%d]_Polynomial_Coefficients[%d]' % (i, j)] = SymReal(c)
             props['NI_Scale[%d]_Polynomial_Input_Source' % i] = s_
             spec[i] = ('poly', cs, s_)
+        elif t == 'AdvancedAPI':
+            # passes its input through unchanged: later scales receive the very array it was given (possibly the raw data)
+            s_ = _src(ctx, 'src%d' % i, i)
+            props['NI_Scale[%d]_AdvancedAPI_Input_Source' % i] = s_
+            spec[i] = ('noop', s_)
         else:
             l_, r_ = _src(ctx, 'left%d' % i, i), _src(ctx, 'right%d' % i, i)
             props['NI_Scale[%d]_%s_Left_Operand_Input_Source' % (i, t)] = l_
@@ -157,6 +166,8 @@ def _graph(task, ctx):
         elif s_[0] == 'poly':
             inp = ev(s_[2], xv, i)
             r = s_[1][0] + s_[1][1] * inp + s_[1][2] * inp * inp
+        elif s_[0] == 'noop':
+            r = ev(s_[1], xv, i)
         elif s_[0] == 'Add':
             r = ev(s_[1], xv, i) + ev(s_[2], xv, i)
         else:
@@ -187,6 +198,78 @@ def _graph(task, ctx):
     if srcs and ctx.check(z3.Or(*[v.e != RAW for v in srcs])):
         ctx.note('wiring-to-earlier-scale')
     ctx.note('wiring-to-raw')
+
+
+def _cp_builders():
+    """(name, builder(input_source) -> scale object, sample raw values) for every scale class that takes one input"""
+    import nptdms.scaling as sc
+    from . import c17
+    out = [
+        ('Linear', lambda src: sc.LinearScaling(1.0, 2.0, src), [0.5, -1.5, 3.0]),
+        ('Polynomial', lambda src: sc.PolynomialScaling([1.0, 0.5, 0.25], src), [0.5, -1.5, 3.0]),
+        ('Table', lambda src: sc.TableScaling(np.array([5.0, -1.0, 3.0]), np.array([1.0, 2.0, 4.0]), src), [0.5, 1.5, 5.0]),
+        ('Table-decreasing', lambda src: sc.TableScaling(np.array([3.0, -1.0, 5.0]), np.array([4.0, 2.0, 1.0]), src), [0.5, 1.5, 5.0]),
+        ('Thermocouple-K-uV-to-C', lambda src: sc.ThermocoupleScaling(10073, 0, src), [4096.0, 0.0, -1000.0]),
+        ('Thermocouple-K-C-to-uV', lambda src: sc.ThermocoupleScaling(10073, 1, src), [100.0, 0.0, -50.0]),
+        ('Thermocouple-T-uV-to-C', lambda src: sc.ThermocoupleScaling(10086, 0, src), [4279.0, 0.0, -1000.0]),
+        ('AdvancedAPI', lambda src: sc.NoOpScaling(src), [0.5, -1.5, 3.0]),
+    ]
+    for cfg in (2, 3, 4):
+        out.append(('RTD-%d-wire' % cfg, lambda src, cfg=cfg: sc.RtdScaling(1e-3, 100.0, 3.9083e-3, -5.775e-7, -4.183e-12, 0.5, cfg, src),
+                    [0.11, 0.14, 0.09]))
+    for b, code in c17.BRIDGES.items():
+        out.append(('Strain-' + b, lambda src, code=code: sc.StrainScaling(code, 0.3, 350.0, 0.2, 1e-4, 2.1, 1.0, 2.5, src), [1e-3, -2e-3, 0.0]))
+    for exc in (sc.CURRENT_EXCITATION, sc.VOLTAGE_EXCITATION):
+        out.append(('Thermistor-%s' % exc, lambda src, exc=exc: sc.ThermistorScaling(exc, 1e-4 if exc == sc.CURRENT_EXCITATION else 2.5, 4, 5000.0, 0.0,
+                                                                                   1.0e-3, 2.4e-4, 1.5e-7, 273.15, src),
+                    [1.0, 0.8, 1.2] if exc == sc.CURRENT_EXCITATION else [1.6, 1.5, 1.7]))
+    return out
+
+
+def _cp_run(si, via, dt):
+    """returns None or (what, detail): the caller's array is bit-identical after scaling and a second call gives the same result"""
+    import nptdms.scaling as sc
+    import warnings
+    name, build, vals = _cp_builders()[si]
+    arr = np.array(vals, dtype=['float64', 'float32'][dt])
+    keep = arr.tobytes()
+    if via == 0:
+        ms = sc.MultiScaling([build(RAW)])                                  # the scale reads the raw data
+    elif via == 1:
+        ms = sc.MultiScaling([sc.NoOpScaling(RAW), build(0)])               # ... or the output of a pass-through scale (the same array)
+    else:
+        ms = sc.MultiScaling([sc.NoOpScaling(RAW), build(0), sc.AddScaling(1, 0)])     # ... and the array is needed again afterwards
+    with warnings.catch_warnings():
+        warnings.simplefilter('ignore')
+        out1 = np.array(ms.scale(Raw(arr)), copy=True)
+        if arr.tobytes() != keep:
+            return 'scale-modifies-raw-data', dict(scale=name, before=vals, after=[float(v) for v in arr])
+        out2 = np.array(ms.scale(Raw(arr)), copy=True)
+    if arr.tobytes() != keep:
+        return 'scale-modifies-raw-data', dict(scale=name, before=vals, after=[float(v) for v in arr])
+    if out1.tobytes() != out2.tobytes():
+        return 'second-scaling-differs', dict(scale=name, first=[float(v) for v in out1], second=[float(v) for v in out2])
+    return None
+
+
+def _concrete_purity(ctx):
+    """NumPy float arrays (the object arrays of the symbolic harnesses cannot reach dtype-dependent fast paths): every scale class x
+    input wiring x float dtype, solver-driven case split, concrete execution"""
+    n = len(_cp_builders())
+    si = ctx.choice('scale', n)
+    via = ctx.choice('via', 3)
+    dt = ctx.choice('dtype', 2)
+    ctx.obligations += 1
+    try:
+        r = _cp_run(si, via, dt)
+    except (PathAbort, Inconclusive):
+        raise
+    except Exception as e:
+        ctx.fail('concrete-purity-exception', scale=_cp_builders()[si][0], exc=type(e).__name__, msg=str(e)[:100])
+    if r is not None:
+        ctx.fail(r[0], **r[1])
+    ctx.discharged += 1
+    ctx.note('purity')
 
 
 def _lookup(ctx):
@@ -261,7 +344,9 @@ def _daqmx(ctx):
                       'NI_Scale[2]_Subtract_Right_Operand_Input_Source': 1})
         exp = a1 - a0
     scaling = sc.get_scaling(props, {}, {})
-    out = scaling.scale(Raw(None, {0: rarr([a0]), 1: rarr([a1])}))
+    sd = {0: rarr([a0]), 1: rarr([a1])}
+    before = [sd[0][0], sd[1][0]]
+    out = scaling.scale(Raw(None, sd))
     ctx.obligations += 1
     ctx.nqueries += 1
     r, m = nra_check(list(ctx.pc) + [out[0].e != exp])
@@ -269,6 +354,11 @@ def _daqmx(ctx):
         raise Violation(dict(what='daqmx-scaler', inputs=ctx.model_inputs(m), final=which))
     if r != z3.unsat:
         raise Inconclusive('daqmx undecided')
+    ctx.discharged += 1
+    # purity: the raw scaler arrays still hold the very same elements
+    ctx.obligations += 1
+    if sd[0][0] is not before[0] or sd[1][0] is not before[1]:
+        ctx.fail('raw-scaler-data-modified', final=which)
     ctx.discharged += 1
     ctx.note('daqmx-scaler')
 
@@ -388,7 +478,7 @@ def run_task(task):
         st['notes'] = {'file-scaled-window': st['paths'],
                        'file-%s-scope' % task['scope']: st['paths']}
         return st
-    fn = dict(graph=lambda c: _graph(task, c), lookup=_lookup, daqmx=_daqmx, table=_table)[kind]
+    fn = dict(graph=lambda c: _graph(task, c), lookup=_lookup, daqmx=_daqmx, table=_table, **{'concrete-purity': _concrete_purity})[kind]
     st = explore(fn, max_paths=20000, time_budget=900)
     st.pop('wall_s', None)
     return st
@@ -489,9 +579,13 @@ def _replay_kernel(art):
                 props.update({'NI_Scale[2]_Scale_Type': 'Subtract', 'NI_Scale[2]_Subtract_Left_Operand_Input_Source': 0,
                               'NI_Scale[2]_Subtract_Right_Operand_Input_Source': 1})
                 exp = a1 - a0
-            got = float(sc.get_scaling(props, {}, {}).scale(R(None, {0: np.array([a0]), 1: np.array([a1])}))[0])
+            sd = {0: np.array([a0]), 1: np.array([a1])}
+            got = float(sc.get_scaling(props, {}, {}).scale(R(None, sd))[0])
             if not close(got, exp):
                 return dict(sig=signature(dict(task=task, what='daqmx-scaler')), got=got, expected=exp, final=which)
+            if float(sd[0][0]) != a0 or float(sd[1][0]) != a1:
+                return dict(sig=signature(dict(task=task, what='raw-scaler-data-modified')), before=[a0, a1],
+                            after=[float(sd[0][0]), float(sd[1][0])], final=which)
             return None
         if kind == 'table':
             x, sl, b = _fl(inp.get('x', 0)), _fl(inp.get('slope', 1)), _fl(inp.get('icpt', 0))
@@ -520,11 +614,34 @@ def _replay_kernel(art):
     return None
 
 
+def _visible(inp):
+    """a purity violation holds on the whole path (any values); the model's values may be ones on which the in-place write happens to
+    store the same number (e.g. adding 0): replay with generic non-zero values on the same path (integer choices kept)"""
+    out = {}
+    for i, (k, v) in enumerate(sorted(inp.items())):
+        if k.startswith(('src', 'left', 'right', 'final', 'kind_', 'decl_')):
+            out[k] = v
+        else:
+            out[k] = 1.5 + 0.75 * i
+    return out
+
+
 def _replay_graph(art):
     import nptdms.scaling as sc
     task, inp = art['task'], art['inputs']
+    if art.get('what') in ('raw-data-modified', 'raw-scaler-data-modified'):
+        art = dict(art, inputs=_visible(inp))
+        inp = art['inputs']
     if task['kind'] in ('lookup', 'daqmx', 'table'):
         return _replay_kernel(art)
+    if task['kind'] == 'concrete-purity':
+        try:
+            r = _cp_run(int(inp.get('scale', 0)), int(inp.get('via', 0)), int(inp.get('dtype', 0)))
+        except Exception as e:
+            return dict(sig=signature(dict(task=task, what='concrete-purity-exception')), exception=repr(e)[:200])
+        if r is None:
+            return None
+        return dict(sig=signature(dict(task=task, what=r[0])), **r[1])
     if task['kind'] != 'graph':
         return dict(sig=signature(dict(task=task, what=art.get('what'))), note='symbolic-only obligation', inputs=inp)
     types = task['types']
@@ -543,6 +660,8 @@ def _replay_graph(art):
             for j in range(3):
                 props['NI_Scale[%d]_Polynomial_Coefficients[%d]' % (i, j)] = _fl(inp['c%d_%d' % (i, j)])
             props['NI_Scale[%d]_Polynomial_Input_Source' % i] = int(inp['src%d' % i])
+        elif t == 'AdvancedAPI':
+            props['NI_Scale[%d]_AdvancedAPI_Input_Source' % i] = int(inp['src%d' % i])
         else:
             props['NI_Scale[%d]_%s_Left_Operand_Input_Source' % (i, t)] = int(inp['left%d' % i])
             props['NI_Scale[%d]_%s_Right_Operand_Input_Source' % (i, t)] = int(inp['right%d' % i])
@@ -560,6 +679,8 @@ def _replay_graph(art):
         if t == 'Polynomial':
             v = ev(props['NI_Scale[%d]_Polynomial_Input_Source' % i], xv)
             return sum(props['NI_Scale[%d]_Polynomial_Coefficients[%d]' % (i, j)] * v ** j for j in range(3))
+        if t == 'AdvancedAPI':
+            return ev(props['NI_Scale[%d]_AdvancedAPI_Input_Source' % i], xv)
         l_ = ev(props['NI_Scale[%d]_%s_Left_Operand_Input_Source' % (i, t)], xv)
         r_ = ev(props['NI_Scale[%d]_%s_Right_Operand_Input_Source' % (i, t)], xv)
         return l_ + r_ if t == 'Add' else r_ - l_
